@@ -376,8 +376,26 @@ pub fn generate(rng: &mut Rng, mode: Prop) -> Scenario {
             }
             Class::StackLeakWrite => gen_stack_leak_write(rng, tag),
             Class::StackLeakRead => gen_stack_leak_read(tag),
+            Class::ViewLong | Class::ViewShort => gen_const(rng, tag), // only ever placed as a pair, below
         };
         progs.push(p);
+    }
+    // sometimes (raw VM): two pool programs are views of one buffer - the short one is a prefix of the
+    // long one - and one packet starts with the byte on which they differ
+    let mut packets = packets;
+    if kind == Kind::Raw && mode == Prop::C10 && npool >= 4 && rng.chance(1, 6) {
+        let a = 1 + rng.below(npool as u64 - 1) as usize;
+        let mut b = 1 + rng.below(npool as u64 - 1) as usize;
+        if b == a {
+            b = if a + 1 < npool { a + 1 } else { a - 1 };
+        }
+        if b >= 1 {
+            progs[a] = gen_view_long((a + 1) as u8);
+            progs[b] = gen_view_short(&progs[a].clone(), a);
+            if let Some(i) = (1..packets.len()).find(|i| prefix_of[*i].is_none() && !packets[*i].is_empty()) {
+                packets[i][0] = 5;
+            }
+        }
     }
     // sometimes one program of the pool is a byte-identical copy of another (a different slice
     // with the same contents: loading it is a load like any other)
